@@ -20,7 +20,8 @@ RULE = ("exchanges with a loopback HTTP server that records the raw request: mes
         ' ; the same Request sent twice; status mapping with debug logging switched on; empty header values in the headers option'
         ' ; caller values for User-Agent / Accept; error bodies on open(); a peer that never answers the connection attempt'
         ' ; open() on a refused connection; a proxy named only by the process environment is not used'
-        ' ; a cookie set for another path; one Request sent again after the credentials changed')
+        ' ; a cookie set for another path; one Request sent again after the credentials changed'
+        ' ; edge bytes at either end of a body; copied transports')
 ASSUMPTIONS = ["urllib / http.client / http.cookiejar / gzip / zlib are runtime (trusted); the loopback server is the "
                "independent observer of what is on the wire"]
 PARTIAL = [{"theorem": "body_fidelity / cookies / failures", "missing": "socket-level behaviour is runtime: checked by the "
